@@ -269,7 +269,14 @@ def r52(db, ctx):
                     cr = C06.counter_relation(E, H)
                     counted = not ssteps and not lsteps and soff == loff and len(soff) == 1 and \
                         any(soff == {X.canon(('phi', H, cl)): 1} and norm(ci) == ('k', 0) and cs == W for cl, ci, cs in cr)
-                    together = bumped or counted
+                    # `seq_head[off..].as_ptr()` / `dst_head[off..].as_mut_ptr()` with `off` drawn from `(0..n).step_by(W)` by the block loop
+                    so, lo_ = getattr(sr, 'subslice_offs', None), getattr(lr, 'subslice_offs', None)
+                    stepped = False
+                    if not ssteps and not lsteps and soff == loff and len(soff) == 1 and list(soff.values()) == [1] and so and lo_ and \
+                            [norm(x) for x in so] == [norm(x) for x in lo_] and len(so) == 1:
+                        sb = step_range(so[0])
+                        stepped = sb is not None and sb[0] == H and norm(sb[1]) == ('k', 0) and sb[3] == W
+                    together = bumped or counted or stepped
                 if not together:
                     probs.append('source and destination pointers do not advance together from the starts of seq / dst')
         if probs:
@@ -481,6 +488,10 @@ def r53_54(db, ctx):
                 propagated = any((f.callee_short(t2) or '').endswith('Try::branch') and f.dominates(bi, b2_) for b2_, t2 in f.calls())
                 ok4 = propagated
                 why = f'result propagated: {propagated}'
+            elif split_blocks(db, f, R, a1, a2, W):
+                propagated = any((f.callee_short(t2) or '').endswith('Try::branch') and f.dominates(bi, b2_) for b2_, t2 in f.calls())
+                ok4 = propagated
+                why = f'result propagated: {propagated}'
             elif chunk_tail(f, R, a1, a2, W):
                 # `src_blocks.remainder()` / `dst_blocks.into_remainder()` of the chunk iterators that drove the block loop: the elements after
                 # the last whole block of W, at the same offset in both slices (their lengths are asserted equal on entry)
@@ -490,6 +501,47 @@ def r53_54(db, ctx):
             else:
                 why = f'tail called on {X.show(a1, 60)} / {X.show(a2, 60)}'
         (ctx.ok if ok4 else ctx.fail)('R5.4', f, 'generic tail on seq[i..], dst[i..] under i < len, result propagated with ?', *([['same i for source and destination']] if ok4 else [why]))
+
+
+def step_range(e):
+    """e = the element drawn by loop H from `(lo..hi).step_by(s)`: (H, lo, hi, s); None otherwise."""
+    e = norm(e)
+    if not (e[0] == 'elem' and isinstance(e[1], tuple) and e[1] and e[1][0] == 'iter'):
+        return None
+    it = norm(e[1][1])
+    if it[0] == 'call' and it[1].endswith('Iterator::step_by') and len(it[2]) == 2:
+        rng, st = norm(it[2][0]), norm(it[2][1])
+        if rng[0] == 'agg' and isinstance(rng[1], tuple) and len(rng[1]) > 2 and rng[1][2] == 'Range' and len(rng[2]) == 2 and st[0] == 'k' and isinstance(st[1], int):
+            return e[2], rng[2][0], rng[2][1], st[1]
+    return None
+
+
+def multiple_of(e, W):
+    e = norm(e)
+    mul = m(('bin', 'Mul', ('bin', 'Div', '$x', '$w1'), '$w2'), e) or m(('bin', 'Mul', '$w2', ('bin', 'Div', '$x', '$w1')), e)
+    return mul is not None and norm(mul['$w1']) == ('k', W) and norm(mul['$w2']) == ('k', W)
+
+
+def split_blocks(db, f, R, a1, a2, W):
+    """a1 = seq.split_at(h).1, a2 = dst.split_at_mut(h).1 with the same h = (x / W) * W, and the block loop draws its offsets from
+    (0..h).step_by(W) (that the loads and stores sit at those offsets of the two slices is R5.2): the blocks are exactly [0, h), the tail [h, len)."""
+    b1 = m(('fld', ('call~', ('slice::split_at',), (('p', 1), '$h')), '1'), a1)
+    b2 = m(('fld', ('call~', ('slice::split_at_mut',), (('p', 2), '$h')), '1'), a2)
+    if b1 is None or b2 is None or norm(b1['$h']) != norm(b2['$h']) or not multiple_of(b1['$h'], W):
+        return False
+    h = norm(b1['$h'])
+    fE, E, err = KN.evaluate(db, f.path)
+    if E is None:
+        return False
+    for H, L in E.loops.items():
+        it = L.iter
+        if isinstance(it, tuple) and it and it[0] == 'iter':
+            sb = step_range(('elem', it, H))
+            if sb is not None and norm(sb[1]) == ('k', 0) and norm(sb[2]) == h and sb[3] == W:
+                # and it is the loop that does the vector accesses
+                if any(a.kind in ('load', 'store') and a.width and H in a.loops for a in E.acc):
+                    return True
+    return False
 
 
 def prefix_blocks(f, R, i, W):
